@@ -4,37 +4,42 @@
    extends, truncates or frees; all other bytes of every rewritten block are preserved."
 
      all_steps_frame   forall o, PrFrameHist.step_frame fsz vid o        (every API operation, every outcome)
-     fat_frame_all     forall o, fat_frame fsz vid o      the FAT, entry by entry (first copy):
+     fat_frame_all     forall o, fat_frame fsz vid o      the FAT, entry by entry (first copy; the second:
+                       PrFrameHist5.fat_frame_copies):
                          (a) an entry whose value differs is the entry of a cluster; it lies on the OLD chain
                              of a target of the call, or it was FREE and lies afterwards on the chain of a
                              target or of a head the old state did not have (the file written from scratch,
                              the directory created) - hence entries 0, 1 and the slack beyond clusters + 2
-                             never change;
-                         (b) for every head of the old state that is no target - every other file, every
-                             other directory, the pending chains of other handles - the chain is the same
-                             list of clusters and every entry on it has the same value.
+                             never change (fat_frame_reserved);
+                         (b) every head of the old state that is no target - every other file, every other
+                             directory, the pending chains of other handles - is still a head, its chain is
+                             the same list of clusters and every entry on it has the same value.
      data_frame_all    forall o, data_frame fsz vid o     every block that is no FAT sector:
                          (a) a block whose contents differ is a block of the old chain of the file written
                              (Write / IoWrite only), a block of a cluster that was free, the block of the
-                             slot the call owns - and then exactly the bytes at the slot's offset are new -,
-                             or the FAT32 information sector;
-                         (b) every block of the chain of a head that is no write target, other than the
-                             block of the owned slot, is unchanged; the bytes of the slot's block outside the
-                             slot are unchanged.
-     write_range       Write / IoWrite: the bytes of the OLD clusters of the file outside the range
-                       [offset, offset + stored) are preserved, inside they are the data.
+                             slot the call owns - a directory block, exactly the bytes at the slot's offset
+                             are new, every other byte of the block is the old one -, or the FAT32
+                             information sector;
+                         (b) every block of the chain of a head the call does not write through, other than
+                             the block of the owned slot, is unchanged.
+                       (the bytes INSIDE the blocks of the file written: PrFrameHist5.write_range)
      C04_fat_history, C04_data_history   over whole histories: an entry / a block that differs between the
-                       first and the last state of a history was changed by some call of the history, which
-                       owned it in the state just before that call (contrapositive: what no call of the
-                       history targets is unchanged at the end).
-     C04_chain_history the chain of a head that stays a non-target head through the history: same clusters,
-                       same FAT entries, same block contents (but for owned slots) at the end.
-   Both FAT copies: with PrC16.all_steps_c16 (mirror_inv is preserved) the second copy is the first.
+                       first and the last state of a history was owned by one of its calls in the state that
+                       call was issued in (owns_entry: on the chain of a target, or free then; owns_block);
+     C04_untouched_entry, C04_untouched_block   the contrapositive: what no call of the history owns is
+                       unchanged at the end;
+     C04_untargeted_chain   THE COMPOSITION for chains: a head of the first state that no call of the history
+                       targets is a head throughout; at the end its chain has the same clusters, every FAT
+                       entry on it the same value, every block of it the same contents (but for blocks that
+                       hold a slot owned by one of the calls - directory blocks).
+   targets s v o h: h is the in-memory first cluster of the file of the handle (Write, IoWrite), the first
+   cluster of the entry the name lookup finds (truncating OpenFile, Delete), the first cluster of the
+   directory of the handle (creating OpenFile, Mkdir: the directory grows when it has no unused slot).
    Scope as for C03 / C04_history (op_known_ok, id_fresh / handles_ok). *)
 From Coq Require Import NArith ZArith List Bool Lia Arith ZifyClasses ZifyInst Zify Permutation.
 From SdFs Require Import FsTypes FsBase FsFat FsMgr FsLemmas PrBase PrFat PrAlloc PrDir PrSeek PrAllocEffect
   PrRw PrWrite PrFileSeq PrMulti PrEntry PrChain PrCount PrWf PrOpenClose PrGlobalDef PrFrameHist.
-From SdFs Require PrModes PrHandles PrCrash PrBounds PrOrder PrGlobal PrGlobalOpen2 PrGlobalMkdir PrFrameHist2 PrFrameHist3.
+From SdFs Require PrModes PrHandles PrCrash PrBounds PrOrder PrGlobal PrGlobalOpen2 PrGlobalMkdir PrContentDef PrCrashDef4 PrFrameHist2 PrFrameHist3.
 Import ListNotations.
 Open Scope N_scope.
 Local Arguments N.mul : simpl never.
@@ -93,7 +98,7 @@ Section Consequences.
   Lemma cf_changed_entry c : fidx v fsz c -> fat_get d' v 0 c <> fat_get d v 0 c ->
     2 <= c /\ c < v_clusters v + 2 /\ (In c (flat_map (chain_l d v) tg) \/ free_cl d v c).
   Proof.
-    intros Hc Hne. destruct CF as (F & B & (Ff & _) & Htg & _ & HF & _).
+    intros Hc Hne. destruct CF as (_ & F & B & (Ff & _) & Htg & _ & HF & _).
     destruct (in_dec N.eq_dec c F) as [Hin|Hnin]; [|exfalso; exact (Hne (Ff c Hc Hnin))].
     destruct (HF c Hin) as [H|H].
     - apply in_flat_map in H. destruct H as (h & Hh & Hch).
@@ -106,7 +111,7 @@ Section Consequences.
   Lemma cf_other_entries h : In h hs -> ~ In h tg ->
     forall c, In c (chain_l d v h) -> fat_get d' v 0 c = fat_get d v 0 c.
   Proof.
-    intros Hh Hnt c Hc. destruct CF as (F & B & (Ff & _) & Htg & _ & HF & _).
+    intros Hh Hnt c Hc. destruct CF as (_ & F & B & (Ff & _) & Htg & _ & HF & _).
     destruct (chain_at_mem d v h _ c (chain_l_in d v h c Hc) Hc) as (A1 & A2 & A3 & _).
     apply Ff; [exact (fidx_range v fsz c L A2)|].
     intros Hin. destruct (HF c Hin) as [H|(_ & _ & Z)]; [|exact (A3 Z)].
@@ -126,7 +131,7 @@ Section Consequences.
     (exists c, free_cl d v c /\ In j (cluster_blocks v c)) \/
     (exists off b, sl = Some (j, off, b)) \/ PrBounds.is_info v j.
   Proof.
-    intros Hj Hne. destruct CF as (F & B & (_ & Fb) & _ & _ & _ & HB & _).
+    intros Hj Hne. destruct CF as (_ & F & B & (_ & Fb) & _ & _ & _ & HB & _).
     destruct (in_dec N.eq_dec j B) as [Hin|Hnin]; [exact (HB j Hin)|exfalso; exact (Hne (Fb j Hj Hnin))].
   Qed.
 
@@ -135,7 +140,7 @@ Section Consequences.
     PrBounds.in_dir v j /\ off + N.of_nat (length b) <= 512 /\
     (disk_get d' j = set_bytes (disk_get d j) off b \/
      ((exists c, free_cl d v c /\ In j (cluster_blocks v c)) /\ disk_get d' j = set_bytes zero_block off b)).
-  Proof. intros E. destruct CF as (F & B & _ & _ & _ & _ & _ & Hsl). exact (Hsl j off b E). Qed.
+  Proof. intros E. destruct CF as (_ & F & B & _ & _ & _ & _ & _ & Hsl). exact (Hsl j off b E). Qed.
 
   Lemma cf_slot_outside j off b : sl = Some (j, off, b) -> length (disk_get d j) = 512%nat ->
     (forall c, free_cl d v c -> ~ In j (cluster_blocks v c)) ->
@@ -166,7 +171,7 @@ Proof.
   - apply in_data_blocks in H. destruct H as (y & Hy & Hjy). apply in_flat_map in Hy. destruct Hy as (h2 & Hh2 & Hy).
     destruct (chain_at_mem d v h2 _ y (chain_l_in d v h2 y Hy) Hy) as (Y1 & _).
     rewrite (Hsame y Y1 Hjy) in Hy.
-    destruct CF as (F & B & _ & Htg & Hwch & _).
+    destruct CF as (_ & F & B & _ & Htg & Hwch & _).
     apply Hnw. rewrite (wf_l_disj d v hs h h2 x W Hh (Htg h2 (Hwch h2 Hh2)) Hx Hy). exact Hh2.
   - rewrite (Hsame c C1 Hjc) in C3. exact (X3 C3).
   - exact (Hns off b E).
@@ -190,12 +195,59 @@ Proof.
   destruct (chain_at_mem d v h' _ c (chain_l_in d v h' c Hin) Hin) as (_ & _ & Z & _). exact (Z C3).
 Qed.
 
+(* the entry of a cluster of a chain holds the number of the next cluster *)
+Lemma chain_link d v : forall f c l, chain_of d v c f = Some l ->
+  forall p z y r, l = p ++ z :: y :: r -> fat_get d v 0 z = y.
+Proof.
+  induction f as [|f IH]; intros c l H p z y r E; [discriminate|].
+  destruct (PrCrash.chain_of_inv _ _ _ _ _ H) as (_ & _ & _ & [(_ & ->)|(_ & l0 & Hn & ->)]).
+  - destruct p as [|a [|b p']]; discriminate E.
+  - destruct p as [|a p']; cbn [app] in E; injection E as <- E.
+    + destruct f as [|f']; [discriminate|]. destruct (chain_of_head _ _ _ _ _ Hn) as (_ & _ & l' & El).
+      rewrite El in E. injection E as E _. exact E.
+    + exact (IH _ _ Hn p' z y r E).
+Qed.
+
+(* a head that is no target is a head afterwards: nothing links to it, before or after *)
+Lemma cf_head_persists fsz v hs hs' d d' tg wch sl h :
+  fat_wf d v hs -> fat_wf d' v hs' -> fat_layout v fsz -> link_ok v -> call_frame fsz v hs d d' tg wch sl ->
+  In h hs -> ~ In h tg -> In h hs'.
+Proof.
+  intros W W' L Hl CF Hh Hnt.
+  pose proof (wf_l_def d v hs h W Hh) as Hch.
+  assert (Hch' : chain_at d' v h (chain_l d v h)).
+  { apply (chain_of_frame d d' v _ _ _ Hch). exact (cf_other_entries fsz v hs d d' tg wch sl W L CF h Hh Hnt). }
+  pose proof (chain_at_head_in _ _ _ _ Hch') as Hin.
+  destruct (chain_at_mem d' v h _ h Hch' Hin) as (H1 & H2 & H3 & _).
+  destruct (chain_at_mem d v h _ h Hch Hin) as (_ & _ & H3d & _).
+  destruct (proj1 (wf_l_used d' v hs' h W' H1 H2) H3) as (h2 & Hh2 & Hin2).
+  destruct (N.eq_dec h2 h) as [->|Hne]; [exact Hh2|exfalso].
+  pose proof (wf_l_def d' v hs' h2 W' Hh2) as Hch2.
+  destruct (chain_split d' v _ _ _ Hch2 h Hin2) as (pre & lh & E & Hlh).
+  rewrite (chain_at_det _ _ _ _ _ Hlh Hch') in E.
+  destruct (chain_at_head _ _ _ _ Hch') as (r & Er). destruct (chain_at_head _ _ _ _ Hch2) as (r2 & Er2).
+  destruct (@exists_last _ pre) as (pre' & z & Epre).
+  { intros ->. cbn [app] in E. rewrite E, Er in Er2. injection Er2 as E2 _. exact (Hne (eq_sym E2)). }
+  assert (Hz : fat_get d' v 0 z = h).
+  { apply (chain_link d' v _ _ _ Hch2 pre' z h r). rewrite E, Epre, Er, <- app_assoc. reflexivity. }
+  assert (Hzin : In z (chain_l d' v h2)) by (rewrite E, Epre; apply in_or_app; left; apply in_or_app; right; left; reflexivity).
+  destruct (chain_at_mem d' v h2 _ z Hch2 Hzin) as (Z1 & Z2 & _).
+  destruct CF as (Hval & _).
+  destruct (Hval z (fidx_range v fsz z L Z2)) as [Es|[E0|[Ee|(c2 & (C1 & C2 & C3) & Ec)]]].
+  - rewrite Hz in Es. exact (wf_head_no_pred d v hs h z W Hl Hh Z1 Z2 (eq_sym Es)).
+  - rewrite Hz in E0. lia.
+  - rewrite Hz in Ee. destruct (eof_is_end v) as (_ & Emin). rewrite <- Ee in Emin. apply N.leb_le in Emin.
+    unfold link_ok in Hl. pose proof (bad_lt_eoc v). lia.
+  - rewrite Hz, (enc_link v c2 Hl C2) in Ec. subst c2. exact (H3d C3).
+Qed.
+
 (* ================================================================== 3. the two readable per-call theorems *)
 (* h heads a chain the call owns *)
 Definition targets (s : st) (v : vol) (o : op) (h : N) : Prop :=
   match o with
   | Write hd _ | IoWrite hd _ => exists f, file_of s hd f /\ e_cluster (f_entry f) = h
-  | OpenFile dh name _ => (exists e, dir_entry s v dh name e /\ e_cluster e = h) \/ dir_head s v dh h
+  | OpenFile dh name md => (PrCrashDef4.truncating md = true /\ exists e, dir_entry s v dh name e /\ e_cluster e = h) \/
+                           dir_head s v dh h
   | Delete dh name => exists e, dir_entry s v dh name e /\ e_cluster e = h
   | Mkdir dh _ => dir_head s v dh h
   | _ => False
@@ -240,7 +292,8 @@ Definition fat_frame (fsz vid : N) (o : op) : Prop :=
            exists h', In h' hs' /\ ((In h' hs /\ targets s v o h') \/ ~ In h' hs) /\ In c (chain_l d' v h')))) /\
       (* (b) the chain of every head that is no target *)
       (forall h, In h hs -> ~ targets s v o h ->
-         chain_l d' v h = chain_l d v h /\ forall c, In c (chain_l d v h) -> fat_get d' v 0 c = fat_get d v 0 c).
+         In h hs' /\ chain_l d' v h = chain_l d v h /\
+         forall c, In c (chain_l d v h) -> fat_get d' v 0 c = fat_get d v 0 c).
 
 Definition data_frame (fsz vid : N) (o : op) : Prop :=
   forall s r s' vi v bl rch T, fs_inv_at fsz vid s vi v bl rch T -> id_fresh s -> op_known_ok o ->
@@ -280,7 +333,7 @@ Proof.
   pose proof (di_wf _ _ _ _ _ _ (fi_disk _ _ _ _ _ _ _ _ Hat)) as W.
   pose proof (fat_wf_geo _ v' v _ (geo_eq_sym _ _ G) (di_wf _ _ _ _ _ _ (fi_disk _ _ _ _ _ _ _ _ Hat'))) as W'.
   destruct (fi_vol _ _ _ _ _ _ _ _ Hat) as (_ & (_ & L & _) & _).
-  assert (Htg : incl tg (heads v T ++ pend_of s v)) by (destruct CF as (F & B & _ & H & _); exact H).
+  assert (Htg : incl tg (heads v T ++ pend_of s v)) by (destruct CF as (_ & F & B & _ & H & _); exact H).
   split.
   - intros c Hc Hne.
     destruct (cf_changed_entry fsz v _ _ _ tg wch sl CF c Hc Hne) as (C1 & C2 & Hcase).
@@ -294,6 +347,8 @@ Proof.
       destruct Hcase as [Ht|Hn]; [left; split; [exact (Htg h' Ht)|exact (op_owns_targets s v o tg wch sl h' Hown Ht)]|right; exact Hn].
   - intros h Hh Hnt.
     assert (Hn : ~ In h tg) by (intros Hin; exact (Hnt (op_owns_targets s v o tg wch sl h Hown Hin))).
+    destruct (fi_vol _ _ _ _ _ _ _ _ Hat) as (_ & _ & Hfit & _).
+    split; [exact (cf_head_persists fsz v _ _ _ _ tg wch sl h W W' L Hfit CF Hh Hn)|].
     split; [exact (cf_other_chain fsz v _ _ _ tg wch sl W L CF h Hh Hn)|exact (cf_other_entries fsz v _ _ _ tg wch sl W L CF h Hh Hn)].
 Qed.
 
@@ -305,7 +360,7 @@ Proof.
   pose proof (di_wf _ _ _ _ _ _ (fi_disk _ _ _ _ _ _ _ _ Hat)) as W.
   destruct (fi_vol _ _ _ _ _ _ _ _ Hat) as (_ & (_ & L & _) & _ & _ & Hbw & _).
   pose proof (fi_layout _ _ _ _ _ _ _ _ Hat) as PL.
-  assert (Htg : incl tg (heads v T ++ pend_of s v)) by (destruct CF as (F & B & _ & H & _); exact H).
+  assert (Htg : incl tg (heads v T ++ pend_of s v)) by (destruct CF as (_ & F & B & _ & H & _); exact H).
   split.
   - intros j Hj Hne.
     destruct (cf_changed_block fsz v _ _ _ tg wch sl CF j Hj Hne) as [H|[H|[(off & b & E)|H]]].
@@ -503,7 +558,7 @@ Proof.
   destruct (Hstay [] o rest eq_refl vi v bl rch T Hat) as (Hhead & Hnt). cbn [run_ops snd] in Hhead, Hnt.
   destruct (fat_frame_all fsz vid o s r s1 vi v bl rch T Hat Hfresh Ho Es)
     as (vi' & v' & bl' & rch' & T' & Hat' & G & _ & Hb). cbv zeta in Hb.
-  destruct (Hb h Hhead Hnt) as (Hch1 & Hent1).
+  destruct (Hb h Hhead Hnt) as (_ & Hch1 & Hent1).
   destruct (data_frame_all fsz vid o s r s1 vi v bl rch T Hat Hfresh Ho Es) as (_ & Hblk). cbv zeta in Hblk.
   assert (Hstay1 : forall ops1 o' ops2, rest = ops1 ++ o' :: ops2 -> stays_head fsz vid h (snd (run_ops ops1 s1)) o').
   { intros ops1 o' ops2 E. pose proof (Hstay (o :: ops1) o' ops2 ltac:(rewrite E; reflexivity)) as H.
@@ -526,9 +581,69 @@ Proof.
       * rewrite run_ops_cons, Es. exact Hs.
 Qed.
 
+(* ... and a head that no call targets STAYS a head (cf_head_persists): it suffices that h is a head at the
+   start and is never a target.  THE COMPOSITION: the chain of a file or directory that no call of the
+   history targets has at the end the clusters, the FAT entries and (but for owned slots, which lie in
+   directory blocks) the block contents it had at the start *)
+Definition never_target (fsz vid : N) (h : N) (s : st) (o : op) : Prop :=
+  forall vi v bl rch T, fs_inv_at fsz vid s vi v bl rch T -> ~ targets s v o h.
+
+Lemma head_after fsz vid o s r s' vi v bl rch T vi' v' bl' rch' T' h :
+  fs_inv_at fsz vid s vi v bl rch T -> id_fresh s -> op_known_ok o -> step o s = (r, s') ->
+  fs_inv_at fsz vid s' vi' v' bl' rch' T' ->
+  In h (heads v T ++ pend_of s v) -> ~ targets s v o h -> In h (heads v' T' ++ pend_of s' v').
+Proof.
+  intros Hat Hid Hk Hs Hat' Hh Hnt.
+  destruct (all_steps_frame fsz vid o s r s' vi v bl rch T Hat Hid Hk Hs) as (tg & wch & sl & CF & Hown).
+  destruct (inv_at_after fsz vid o s r s' vi v bl rch T Hat Hid Hk Hs) as (vi2 & v2 & bl2 & rch2 & T2 & Hat2 & G).
+  destruct (PrContentDef.fs_inv_at_det _ _ _ _ _ _ _ _ _ _ _ _ _ Hat' Hat2) as (_ & <- & _ & _ & <-).
+  pose proof (di_wf _ _ _ _ _ _ (fi_disk _ _ _ _ _ _ _ _ Hat)) as W.
+  pose proof (fat_wf_geo _ v' v _ (geo_eq_sym _ _ G) (di_wf _ _ _ _ _ _ (fi_disk _ _ _ _ _ _ _ _ Hat'))) as W'.
+  destruct (fi_vol _ _ _ _ _ _ _ _ Hat) as (_ & (_ & L & _) & Hfit & _).
+  apply (cf_head_persists fsz v _ _ _ _ tg wch sl h W W' L Hfit CF Hh).
+  intros Hin. exact (Hnt (op_owns_targets s v o tg wch sl h Hown Hin)).
+Qed.
+
+Theorem C04_untargeted_chain fsz vid : forall ops s age vi v bl rch T h,
+  fs_inv_at fsz vid s vi v bl rch T -> PrHandles.handles_ok age s ->
+  age + N.of_nat (length ops) < U32 - 1 -> Forall op_known_ok ops ->
+  In h (heads v T ++ pend_of s v) ->
+  (forall ops1 o ops2, ops = ops1 ++ o :: ops2 -> never_target fsz vid h (snd (run_ops ops1 s)) o) ->
+  let d := s_disk s in let dn := s_disk (snd (run_ops ops s)) in
+  chain_l dn v h = chain_l d v h /\
+  (forall c, In c (chain_l d v h) -> fat_get dn v 0 c = fat_get d v 0 c) /\
+  (forall j, In j (data_blocks v (chain_l d v h)) ->
+     (forall ops1 o ops2 vk off b, ops = ops1 ++ o :: ops2 -> s_vols (snd (run_ops ops1 s)) = [vk] ->
+        ~ owned_slot (snd (run_ops ops1 s)) vk o j off b) ->
+     disk_get dn j = disk_get d j).
+Proof.
+  intros ops s age vi v bl rch T h Hat Hh Hage Hops Hhead Hnever.
+  assert (Hinv : fs_inv fsz vid s) by (exists vi, v, bl, rch, T; exact Hat).
+  apply (C04_chain_history fsz vid ops s age v h Hinv Hh Hage Hops (fi_single _ _ _ _ _ _ _ _ Hat)).
+  (* h stays a head: by induction over the prefixes *)
+  clear - Hat Hh Hage Hops Hhead Hnever.
+  revert s age vi v bl rch T Hat Hh Hage Hops Hhead Hnever.
+  induction ops as [|o rest IH]; intros s age vi v bl rch T Hat Hh Hage Hops Hhead Hnever ops1 o' ops2 E.
+  { destruct ops1; discriminate E. }
+  assert (Hinv : fs_inv fsz vid s) by (exists vi, v, bl, rch, T; exact Hat).
+  destruct ops1 as [|o1 ops1']; cbn [app] in E; injection E as <- E.
+  - subst ops2. cbn [run_ops snd]. intros vi0 v0 bl0 rch0 T0 Hat0.
+    destruct (PrContentDef.fs_inv_at_det _ _ _ _ _ _ _ _ _ _ _ _ _ Hat Hat0) as (_ & <- & _ & _ & <-).
+    split; [exact Hhead|]. exact (Hnever [] o rest eq_refl vi v bl rch T Hat).
+  - destruct (history_step fsz vid o rest s age Hinv Hh Hage Hops) as (Hfresh & Ho & Hinv1 & Hh1 & Ha3 & Hrest).
+    rewrite run_ops_cons. destruct (step o s) as [r s1] eqn:Es. cbn [snd] in *.
+    destruct (inv_at_after fsz vid o s r s1 vi v bl rch T Hat Hfresh Ho Es) as (vi' & v' & bl' & rch' & T' & Hat' & G).
+    pose proof (Hnever [] o rest eq_refl vi v bl rch T Hat) as Hnt. cbn [run_ops snd] in Hnt.
+    pose proof (head_after fsz vid o s r s1 vi v bl rch T vi' v' bl' rch' T' h Hat Hfresh Ho Es Hat' Hhead Hnt) as Hhead'.
+    refine (IH s1 (age + 1) vi' v' bl' rch' T' Hat' Hh1 Ha3 Hrest Hhead' _ ops1' o' ops2 E).
+    intros p1 o2 p2 E2. pose proof (Hnever (o :: p1) o2 p2 ltac:(rewrite E2; reflexivity)) as H.
+    rewrite run_ops_cons, Es in H. exact H.
+Qed.
+
 Print Assumptions all_steps_frame.
 Print Assumptions fat_frame_all.
 Print Assumptions data_frame_all.
 Print Assumptions C04_fat_history.
 Print Assumptions C04_data_history.
 Print Assumptions C04_chain_history.
+Print Assumptions C04_untargeted_chain.
